@@ -287,6 +287,25 @@ let run (w : string list) : string =
                        (if nlog = [] then "-" else String.concat "+" (List.map req_str nlog)) ]))
         (s0, []) (String.split_on_char ';' ops) in
     String.concat " / " outs
+  | [ "connect"; chmax; answers ] ->
+    let o (i : M.nat) = let k = int_of_nat i in
+      if k < String.length answers then (match answers.[k] with 'S' -> M.ASilent | 'W' -> M.AWrong | 'M' -> M.AMalformed | _ -> M.AGood)
+      else M.AGood in
+    let ((out, c), st) = M.connect (nat_of_int (int_of_string chmax)) o in
+    Printf.sprintf "%s reqs=%d running=%b" (match out with M.Connected -> "Connected" | M.TimeoutError -> "TimeoutError" | M.DecodeError -> "DecodeError")
+      (int_of_nat st.M.reqs) c.M.recv_running
+  | [ "lifecycle"; streaming; enabled; calls ] ->
+    let s0 = M.nx0 (streaming = "1") (enabled = "1") in
+    let (_, outs) = List.fold_left (fun (s, acc) k ->
+        let call = (match k with "connect" -> M.KConnect | "disconnect" -> M.KDisconnect | "stream_start" -> M.KStreamStart
+                                | "stream_stop" -> M.KStreamStop | "sub" -> M.KSub | "unsub" -> M.KUnsub
+                                | "enable" -> M.KEnable | _ -> M.KWrite) in
+        let (s', r) = M.nx_step s call in
+        (s', acc @ [ Printf.sprintf "%s conn=%b stream=%b thr=%b recv=%b devstream=%b"
+                       (match r with M.RDone -> "ok" | M.RAssert -> "AssertionError" | M.RIndex -> "IndexError")
+                       s'.M.connected_f s'.M.stream_started s'.M.stream_thread s'.M.cm.M.recv_running s'.M.dev_streaming ]))
+        (s0, []) (String.split_on_char ',' calls) in
+    String.concat " / " outs
   | _ -> "driver-error unknown-command"
 
 let () =
